@@ -260,6 +260,35 @@ def run(ctx):
                        g.where(c.bb))
         if prog.has_fn("minijinja::vm::Executor::eval_macro"):
             ctx.floor("C18.W5 interpreter stores of pre-assigned names" + tag, nst, 1)
+        # `loop`: the interpreter answers a lookup of "loop" from the loop frame only when the loop was started with
+        # the with-loop-variable flag.  The tracker assigns `loop` for every loop body, so every loop whose body
+        # statements are compiled must be started with that flag set - a constant `true`, or a value computed by the
+        # tracker module itself (consistent by construction).  A loop started without it (the filter pre-pass) must
+        # be ended before any body statement is compiled.
+        SFL, EFL = G + "start_for_loop", G + "end_for_loop"
+        if "loop" in names:
+            nl = 0
+            for c in prog.calls_of(SFL):
+                cf = c.fn
+                if len(c.args) < 3:
+                    continue
+                os_ = flow.origins(cf, c.args[1])
+                always = bool(os_) and all((o.kind == "const" and str(o.const.get("int")) == "1") or
+                                           (o.kind == "call" and o.call.name.startswith(M)) for o in os_)
+                if always:
+                    nl += 1
+                    continue
+                ends = {k.bb for k in cf.calls_to(EFL)}
+                inside = cfg.reach_from_succs(cf, c.bb, avoid=ends)
+                open_body = [k for k in cf.calls_to(G + "compile_stmt") if k.bb in inside]
+                nl += 1
+                ctx.ob("C18.W5.loop-is-bound-for-the-loop-body", "%s%s|start_for_loop#%d" % (tag, cf.path.split("::")[-1], nl),
+                       not open_body,
+                       "body statements are compiled inside a loop that is not (always) started with the loop-variable "
+                       "flag: a body that mentions `loop` looks it up in the render context, but the tracker treats `loop` "
+                       "as assigned in every loop body", cf.where(c.bb))
+            ctx.floor("C18.W5 start_for_loop sites" + tag, nl, 2)
+            ctx.ob("C18.W5.loop-is-bound-for-the-loop-body", tag + "all-loops", True, "%d sites" % nl, "")
         # implicit names live in the scope of their construct: the pre-assignment happens after the tracker opened a
         # scope for it (in the same function, or in every tracker function that calls it), so the name is forgotten
         # when the construct ends
